@@ -796,10 +796,17 @@ class Interp:
                 return dict.fromkeys(list(self.iterate(args[0])),
                                      *args[1:])
             if isinstance(base, list) and attr in ('append', 'extend'):
-                getattr(base, attr)(*args)
+                if attr == 'extend':
+                    base.extend(self.iterate(args[0]))
+                else:
+                    base.append(*args)
                 return None
             if isinstance(base, set) and attr in ('add', 'update'):
-                getattr(base, attr)(*args)
+                if attr == 'update':
+                    for a in args:
+                        base.update(self.iterate(a))
+                else:
+                    base.add(*args)
                 return None
             if isinstance(base, dict) and attr == 'get':
                 pass
